@@ -45,6 +45,9 @@ type LiveCase struct {
 	Ops   []LiveOp `json:"ops"`
 	// FailFirst: before every Sub call an operation fails on the parent FS object
 	FailFirst bool `json:"fail_first,omitempty"`
+	// VolAt: 1+k = SubVolume("") (the one volume name valid here) is asked of the FS object reached after k Sub calls; if it
+	// answers with a file system instead of an error, the chain continues from that one: it must still be the same view
+	VolAt int `json:"vol_at,omitempty"`
 }
 
 func lsnap(root string) map[string]string {
@@ -120,7 +123,16 @@ func checkLive(c LiveCase) (string, string) {
 	}
 	var fsys hackpadfs.FS = hos.NewFS()
 	per := len(els) / n
+	subVolume := func(k int) {
+		if c.VolAt != 1+k {
+			return
+		}
+		if v, err := fsys.(*hos.FS).SubVolume(""); err == nil && v != nil {
+			fsys = v
+		}
+	}
 	for i := 0; i < n; i++ {
+		subVolume(i)
 		lo, hi := i*per, (i+1)*per
 		if i == n-1 {
 			hi = len(els)
@@ -135,6 +147,7 @@ func checkLive(c LiveCase) (string, string) {
 		}
 		fsys = next
 	}
+	subVolume(n)
 	if got, err := fsys.(*hos.FS).ToOSPath("."); err != nil || got != subRoot {
 		return "C09/liveops root", fmt.Sprintf("ToOSPath(\".\") = %q, %v; the Sub chain spells %q", got, err, subRoot)
 	}
@@ -304,6 +317,7 @@ func genLive(rt *rapid.T) LiveCase {
 			existing = append(existing, op.P2)
 		}
 	}
+	c.VolAt = rapid.SampledFrom([]int{0, 0, 1, 2, 2, 3, 4}).Draw(rt, "volat")
 	return c
 }
 
